@@ -6,6 +6,21 @@ CHECKS = {
  "C01": ("runtime reference-model monitor: generated canonical values through the real Encode/Decode, structural-equality oracle with independently recomputed length/checksum",
          "Exploration: every one of the 170 codecs is driven with PRNG-determined canonical values (boundary-biased numbers, float bit patterns, hostile text, lists, every registered discriminator key) and the decoded message is compared bit-for-bit with the original. Holds on the executions observed; values not generated are not covered.",
          "Trusts Go reflection and the harness's own equality/clone code; the pinned schema only steers generation.", "§3 C01"),
+ "C02": ("runtime reference-model monitor: independent interpreter of the pinned wire schema compared byte-for-byte (encode) and value-for-value (decode) with the real codecs on generated canonical, arbitrary and wire-level inputs",
+         "Exploration: per message type ('program') the library and an independent schema interpreter are run side by side on PRNG-determined values and images; any byte, accept/reject, consumed-length or value disagreement is a violation. Catches two-sided layout changes that every round-trip test is blind to. Holds on the executions observed.",
+         "Trusts the frozen schema snapshot (extracted once from the pinned commit, Encode and Decode renderings cross-checked) and the 300-line reference codec, which is anchored by hand-written golden vectors in the self-test.", "§3 C02, §2.2"),
+ "C03": ("runtime monitor of wire tokens: LE primitive output compared with token-wise byte-reversed BE output for 82 instantiated primitive pairs; every multi-byte numeric token of every message checked against the module's single byte order",
+         "Exploration: all big/little-endian primitive pairs instantiated for every prefix and element type are driven with generated values, and every numeric token (scalar, count, element, text length, computed length, computed checksum) of every message type is located by the pinned schema and checked for the module's byte order. Holds on the executions observed.",
+         "Token positions come from the pinned schema; the per-module byte order is data of the oracle (no per-field override exists in the schema format).", "§3 C03"),
+ "C04": ("runtime invariant monitor on frame encodes: length token vs. appended bytes vs. object field vs. reference body length, under 7 buffer histories and stale caller values",
+         "Exploration: every self-measuring frame type × every registered body type × 4 body kinds × 7 buffer histories × 4 stale caller values (thorough: repeated with fresh random content and >8 MiB frames). Holds on the executions observed.",
+         "Frame header positions come from the pinned schema.", "§3 C04"),
+ "C05": ("runtime invariant monitor on frame encodes: trailer vs. object field vs. own byte-sum / bitwise CRC-32 over exactly the appended frame bytes, under 7 buffer histories",
+         "Exploration: every checksummed frame type × every registered body type × body kinds × buffer histories (prior content, partly consumed, reallocation) × stale values; the checksum span is pinned to the bytes this Encode appended. Holds on the executions observed.",
+         "Own checksum implementations are self-tested on published check values.", "§3 C05"),
+ "C06": ("runtime differential monitor: encode under 7 buffer histories vs. encode of a deep clone into a fresh buffer; prefix-preservation, re-encode and sequence-concatenation oracles",
+         "Exploration: all 170 types × generated values × 7 buffer histories, re-encodes of the same object, and mixed-type sequences with partial drains. Holds on the executions observed.",
+         "Trusts bytes.Buffer and the harness deep-clone.", "§3 C06"),
 }
 NOT_YET = {}
 def main():
